@@ -92,12 +92,12 @@ def decodeBody (cfg : Cfg) (stop : Byte) : Nat → List Byte → Option (List By
 
 def IsQuote (q : Byte) : Prop := q = 0x22 ∨ q = 0x27
 
-/-- an object key: a quoted string, or a non-empty run of identifier bytes (which denotes itself; its length is not
-    limited by `cfg.maxStrLen`) -/
+/-- an object key: a quoted string, or a non-empty run of identifier bytes (which denotes itself); both go through the
+    string builder, so both are limited by `cfg.maxStrLen` -/
 inductive Key (cfg : Cfg) : List Byte → List Byte → Prop
   | quoted (q : Byte) (body k : List Byte) : IsQuote q → decodeBody cfg q 0 body = some k → k.length ≤ cfg.maxStrLen →
       Key cfg (q :: body ++ [q]) k
-  | bare (k : List Byte) : k ≠ [] → (∀ c ∈ k, inUnquoted c = true) → Key cfg k k
+  | bare (k : List Byte) : k ≠ [] → (∀ c ∈ k, inUnquoted c = true) → k.length ≤ cfg.maxStrLen → Key cfg k k
 
 /-! ## numbers -/
 
